@@ -297,6 +297,11 @@ func (b *bufferWriter) expectBody(r *http.Request) bool {
 }
 
 func (b *bufferWriter) Close() error {
+	// The temporary file of a WriterOnce is only removed by closing a reader obtained from it,
+	// so get that reader if nobody took it yet.
+	if rdr, err := b.buffer.Reader(); err == nil {
+		_ = rdr.Close()
+	}
 	return b.buffer.Close()
 }
 
